@@ -170,13 +170,37 @@ def run_daemon_scenario(ctx, binp, idx, cause, load):
     outpath = "/dev/full" if cause == "output-fails" else op
     env = dict(os.environ, NODE_NAME="verif-node")
     errf = open(os.path.join(d, "stderr.txt"), "w")
-    proc = subprocess.Popen([binp, "--sshd-pipe-path", sp, "--auditd-pipe-path", ap, "--app-events-output", outpath],
-                            stdout=errf, stderr=errf, env=env, cwd=d)
+    argv = [binp, "--sshd-pipe-path", sp, "--auditd-pipe-path", ap, "--app-events-output", outpath]
+    blocker = None
+    if load == "http":
+        argv += ["--healthz", "--metrics"]
+        if cause == "http-port-busy":
+            import socket
+            blocker = socket.socket(socket.AF_INET6, socket.SOCK_STREAM)
+            blocker.setsockopt(socket.SOL_SOCKET, socket.SO_REUSEADDR, 1)
+            try:
+                blocker.bind(("::", 2112))
+                blocker.listen(1)
+            except OSError:
+                blocker.close()
+                errf.close()
+                return {"k": "daemon", "id": idx, "cause": cause, "load": load, "started": False, "exited": False,
+                        "status": -1, "ms": 0, "flooded": 0, "stderr": "port 2112 not available to the harness"}
+    proc = subprocess.Popen(argv, stdout=errf, stderr=errf, env=env, cwd=d)
     rec = {"k": "daemon", "id": idx, "cause": cause, "load": load, "started": False, "exited": False, "status": -1,
            "ms": 0, "flooded": 0}
     sw = aw = None
     fl = None
     try:
+        if cause == "http-port-busy":
+            t0 = time.time()
+            rec["started"] = True
+            try:
+                proc.wait(timeout=8)
+                rec.update(exited=True, status=proc.returncode, ms=int((time.time() - t0) * 1000))
+            except subprocess.TimeoutExpired:
+                rec.update(exited=False, ms=8000)
+            return rec
         if load != "unopened":
             sw, aw = open_writer(sp), open_writer(ap)
             if sw is None or aw is None:
@@ -190,6 +214,14 @@ def run_daemon_scenario(ctx, binp, idx, cause, load):
             rec.update(exited=True, status=proc.returncode)
             return rec
         rec["started"] = True
+        if load == "http":
+            # the readiness endpoint of the running daemon answers (C18 at daemon level: informational)
+            try:
+                import urllib.request
+                with urllib.request.urlopen("http://127.0.0.1:2112/readyz", timeout=2) as r:
+                    rec["readyz"] = r.status
+            except Exception as e:  # noqa: BLE001
+                rec["readyz"] = getattr(e, "code", -1)
         if load == "flood":
             fl = Flooder(aw)
             fl.start()
@@ -231,6 +263,8 @@ def run_daemon_scenario(ctx, binp, idx, cause, load):
                 except OSError:
                     pass
         errf.close()
+        if blocker is not None:
+            blocker.close()
         rec["stderr"] = open(os.path.join(d, "stderr.txt"), errors="replace").read()[-300:]
         if fl:
             fl.join(timeout=2)
@@ -261,6 +295,10 @@ def run_c08(ctx):
                 t.join()
             recs += res
             idx += len(batch)
+        # with the HTTP server enabled (fixed port 2112: one at a time)
+        for c, l in (("sigterm", "http"), ("audit-malformed", "http"), ("sshd-eof", "http"), ("http-port-busy", "http")):
+            recs.append(run_daemon_scenario(ctx, binp, idx, c, l))
+            idx += 1
     tp = ctx.path("trace.ndjson")
     with open(tp, "w") as f:
         for r in recs:
